@@ -45,6 +45,17 @@ Fixpoint strided (l : list Z) (k n : nat) (stop : nat) (i : nat) : list Z :=
               else strided r k n stop (S i)
   end.
 
+(* ---- named decision rules and arithmetic: Bridge/C01.v proves that the definitions regenerated from /repo on
+   every run (Gen/C01.v, by translate/gen_c01.py) are equal to these ---- *)
+Definition m_is_finished (n_read k : nat) : bool := (n_read <? k)%nat.          (* parser.py _get_buffer *)
+Definition m_oneline_incomplete (cnt n : nat) : bool := (cnt <? n)%nat.          (* one_line_buffer.from_raw_buffer *)
+Definition m_oneline_kept (cnt n : nat) : nat := (cnt - cnt mod n)%nat.
+Definition m_size_after (last_nl : Z) : nat := Z.to_nat (last_nl + 1).           (* new_lines[-1] + 1 *)
+Definition m_header_line (i n : nat) : nat := ((i + 1) * n)%nat.                 (* _validate *)
+Definition m_plus_line (j n : nat) : nat := (2 + j * n)%nat.                     (* FastQBuffer._validate *)
+Definition m_reported (local_line lines_before : nat) : nat := (local_line + lines_before)%nat.
+Definition m_lines_after (lines_before buff_lines : nat) : nat := (lines_before + buff_lines)%nat.
+
 Definition cut (f : fmt) (chunk : list Z) : cutres :=
   match f with
   | Delim sep =>
@@ -57,29 +68,29 @@ Definition cut (f : fmt) (chunk : list Z) : cutres :=
           let last_nl := last nls 0 in
           let used := length (filter (fun p => p <=? last_nl) delims) in
           let n_fields := length (filter (fun p => p <=? first_nl) delims) in
-          if (used mod n_fields =? 0)%nat then CutOk (Z.to_nat (last_nl + 1)) (used / n_fields)
+          if (used mod n_fields =? 0)%nat then CutOk (m_size_after last_nl) (used / n_fields)
           else CutRaise
       end
   | OneLine n hdr plus =>
       let nls := nl_pos chunk in
       let cnt := length nls in
-      if (cnt <? n)%nat then CutIncomplete
+      if m_oneline_incomplete cnt n then CutIncomplete
       else
-        let m := (cnt - cnt mod n)%nat in
+        let m := m_oneline_kept cnt n in
         let kept := firstn m nls in
-        let size := Z.to_nat (last kept 0 + 1) in
+        let size := m_size_after (last kept 0) in
         let data := firstn size chunk in
         if negb (nthZ data 0 =? hdr) then CutFormat 0
         else
           (* new_lines[n-1:-1:n] + 1 : first byte of every later record *)
           let hidx := map (fun p => p + 1) (strided kept (n - 1) n (m - 1) 0) in
           match find_first_bad (fun p => nthZ data p =? hdr) hidx 0 with
-          | Some i => CutFormat ((i + 1) * n)
+          | Some i => CutFormat (m_header_line i n)
           | None =>
               if plus then
                 let pidx := map (fun p => p + 1) (strided kept 1 n m 0) in
                 match find_first_bad (fun p => nthZ data p =? 43) pidx 0 with
-                | Some j => CutFormat (2 + j * n)
+                | Some j => CutFormat (m_plus_line j n)
                 | None => CutOk size m
                 end
               else CutOk size m
@@ -148,7 +159,7 @@ Fixpoint accumulate (fixed : bool) (fuel : nat) (f : fmt) (k : nat) (file : list
   | S fuel' =>
       let raw := firstn k (skipn pos file) in
       let pos' := (pos + length raw)%nat in
-      let fin := (length raw <? k)%nat in
+      let fin := m_is_finished (length raw) k in
       match raw with
       | [] =>
           if (negb fixed) || reached_end || (match temp with [] => true | _ => false end)
@@ -159,7 +170,7 @@ Fixpoint accumulate (fixed : bool) (fuel : nat) (f : fmt) (k : nat) (file : list
             let temp' := [chunk] in
             let app' := app ++ terminator f pending in
             match complete f temp' with
-            | CFormat l => AFormat (l + lines0)
+            | CFormat l => AFormat (m_reported l lines0)
             | CYes => AComplete temp' pos' true app'
             | CNo => accumulate fixed fuel' f k file lines0 pos' temp' true app'
             end
@@ -168,7 +179,7 @@ Fixpoint accumulate (fixed : bool) (fuel : nat) (f : fmt) (k : nat) (file : list
           let temp' := temp ++ [chunk] in
           let app' := if fin then app ++ terminator f raw else app in
           match complete f temp' with
-          | CFormat l => AFormat (l + lines0)
+          | CFormat l => AFormat (m_reported l lines0)
           | CYes => AComplete temp' pos' fin app'
           | CNo => accumulate fixed fuel' f k file lines0 pos' temp' reached_end app'
           end
@@ -192,16 +203,16 @@ Definition read_chunk (fixed : bool) (f : fmt) (m : mode) (k : nat) (file : list
   | AComplete temp pos' fin appended =>
       let chunk := concat temp in
       match cut f chunk with
-      | CutFormat l => RFormat (l + r_lines st)
+      | CutFormat l => RFormat (m_reported l (r_lines st))
       | CutIncomplete | CutRaise => RError
       | CutOk size nl =>
           let buff := firstn size chunk in
           let rest := skipn size chunk in
           let st' :=
-            if fin then {| r_pos := pos'; r_prepend := []; r_finished := true; r_lines := r_lines st + nl |}
+            if fin then {| r_pos := pos'; r_prepend := []; r_finished := true; r_lines := m_lines_after (r_lines st) nl |}
             else match m with
-                 | Seek => {| r_pos := pos' - length rest; r_prepend := []; r_finished := false; r_lines := r_lines st + nl |}
-                 | Prepend => {| r_pos := pos'; r_prepend := rest; r_finished := false; r_lines := r_lines st + nl |}
+                 | Seek => {| r_pos := pos' - length rest; r_prepend := []; r_finished := false; r_lines := m_lines_after (r_lines st) nl |}
+                 | Prepend => {| r_pos := pos'; r_prepend := rest; r_finished := false; r_lines := m_lines_after (r_lines st) nl |}
                  end in
           RChunk buff (if fin then rest else []) appended st'
       end
